@@ -241,8 +241,9 @@ Proof. intros H1 H2 H3. unfold validate_params. rewrite H1, H2, H3. cbn. repeat 
 Lemma vp_openid_required cfg p c :
   cf_openid_required cfg = true -> contains_openid (p_scopes p) = false -> validate_params cfg p c <> None.
 Proof. intros H1 H2. unfold validate_params. rewrite H1, H2. cbn. repeat (break_goal; try discriminate). Qed.
-Lemma vp_resource_required cfg p c : cf_resource_required cfg = true -> validate_params cfg p c <> None.
-Proof. intros H1. unfold validate_params. rewrite H1. repeat (break_goal; try discriminate). Qed.
+Lemma vp_resource_required cfg p c :
+  cf_resource_required cfg = true -> p_resources p = [] -> validate_params cfg p c <> None.
+Proof. intros H1 H2. unfold validate_params. rewrite H1, H2. cbn. repeat (break_goal; try discriminate). Qed.
 Lemma vp_fapi1_resp_type cfg p c :
   cf_profile cfg = PFapi1 -> seqb (p_resp_type p) "code" = false -> seqb (p_resp_type p) "code id_token" = false ->
   validate_params cfg p c <> None.
@@ -360,8 +361,9 @@ Proof.
 Qed.
 Lemma flags_openid p opts cfg : In WithOpenIDScopeRequired opts -> build p opts = Some cfg -> cf_openid_required cfg = true.
 Proof. intros Hi Hb; flag mono_openid_required dflt_openid_required. Qed.
-Lemma flags_resource p opts cfg : In WithResourceIndicatorsRequired opts -> build p opts = Some cfg -> cf_resource_required cfg = true.
-Proof. intros Hi Hb; flag mono_resource_required dflt_resource_required. Qed.
+Lemma flags_resource p opts cfg r l : In (WithResourceIndicatorsRequired r l) opts -> build p opts = Some cfg ->
+  cf_resource_required cfg = true /\ cf_resource_enabled cfg = true.
+Proof. intros Hi Hb; split; [flag mono_resource_required dflt_resource_required|flag mono_resource_enabled dflt_resource_enabled]. Qed.
 Lemma flags_jwt_bearer p opts cfg : In WithJWTBearerGrantClientAuthnRequired opts -> build p opts = Some cfg ->
   cf_jwt_bearer_authn_required cfg = true.
 Proof. intros Hi Hb; flag mono_jwt_bearer_authn dflt_jwt_bearer_authn. Qed.
@@ -376,7 +378,7 @@ Lemma all_required_flags p opts cfg : build p opts = Some cfg ->
   (In WithTokenBindingRequired opts ->
      cf_binding_required cfg = true /\ (cf_dpop_enabled cfg = true \/ cf_tls_binding_enabled cfg = true)) /\
   (In WithOpenIDScopeRequired opts -> cf_openid_required cfg = true) /\
-  (In WithResourceIndicatorsRequired opts -> cf_resource_required cfg = true) /\
+  (forall r l, In (WithResourceIndicatorsRequired r l) opts -> cf_resource_required cfg = true /\ cf_resource_enabled cfg = true) /\
   (In WithJWTBearerGrantClientAuthnRequired opts -> cf_jwt_bearer_authn_required cfg = true) /\
   cf_profile cfg = p.
 Proof.
@@ -462,10 +464,11 @@ Section Switches.
     right; right; left. apply vp_openid_required; auto.
   Qed.
 
-  Lemma resource_required_enforced r : In WithResourceIndicatorsRequired opts ->
-    p_request_uri (ar_params r) = 0 -> xrefused (snd (step_g w st n (OpAuthorize r))).
+  Lemma resource_required_enforced r res l : In (WithResourceIndicatorsRequired res l) opts ->
+    p_request_uri (ar_params r) = 0 -> p_resources (ar_params r) = [] ->
+    xrefused (snd (step_g w st n (OpAuthorize r))).
   Proof.
-    intros Hi Hu. pose proof (flags_resource _ _ _ Hi built) as H1. direct.
+    intros Hi Hu Hr. destruct (flags_resource _ _ _ _ _ Hi built) as [H1 _]. direct.
     right; right; left. apply vp_resource_required; auto.
   Qed.
 
